@@ -1022,6 +1022,16 @@ func (dsc *dataStoreCommand) randomKey() (output respValue) {
 	return
 }
 
+// removes every key of the data store; the data store object itself stays, because
+// connections, watches and blocked clients refer to it
+func (dsc *dataStoreCommand) flush() {
+	dsc.lock()
+	defer dsc.unlock()
+
+	dsc.ds.data = newRedisDict()
+	dsc.ds.data.dirty = true
+}
+
 func (dsc *dataStoreCommand) dbSize() (size int) {
 	dsc.lock()
 	defer dsc.unlock()
